@@ -95,7 +95,21 @@ func c17Rounds(tier string) int {
 }
 
 // c17Call instantiates the generic builder for the dynamic value type.
+// c17Spare is what sits behind the window arguments in the caller's slice (cap > len); c17SpareOK checks it afterwards.
+const c17Spare = -7777777
+
 func c17Call(name string, v any, win []int) (f *of.MatchField, err error) {
+	// the caller spreads a sub-slice of a longer slice: the builder must not write behind the arguments it was given
+	backing := make([]int, len(win), len(win)+3)
+	copy(backing, win)
+	full := backing[:len(win)+3]
+	full[len(win)], full[len(win)+1], full[len(win)+2] = c17Spare, c17Spare, c17Spare
+	win = backing
+	defer func() {
+		if full[len(win)] != c17Spare || full[len(win)+1] != c17Spare || full[len(win)+2] != c17Spare {
+			c17SpareDamage = fmt.Sprintf("window arguments %v were spread from a slice with spare capacity; afterwards the elements behind them read %v", win, full[len(win):])
+		}
+	}()
 	switch x := v.(type) {
 	case int8:
 		return of.NewMatchField[int8, int](name, x, win...)
@@ -131,6 +145,9 @@ func c17Call(name string, v any, win []int) (f *of.MatchField, err error) {
 	}
 	return nil, fmt.Errorf("harness: unsupported value type %T", v)
 }
+
+// c17SpareDamage is set by c17Call when the builder wrote behind its window arguments.
+var c17SpareDamage string
 
 var c17Types = []string{"int8", "int16", "int32", "int64", "int", "uint8", "uint16", "uint32", "uint64", "big", "bytes", "ip", "mac"}
 
@@ -255,7 +272,11 @@ func c17One(c *fw.Ctx, name string, W int, vt string, v *big.Int, conv string, o
 	before := c17Snapshot(val)
 	var f *of.MatchField
 	var err error
+	c17SpareDamage = ""
 	p, pv, st := fw.Recover(func() { f, err = c17Call(name, val, win) })
+	if c17SpareDamage != "" {
+		c.Violation(conv, "argument-modified", "window-arguments", detail(c17SpareDamage))
+	}
 	if p {
 		c.Violation(conv, "panic", locus, detail("panic: "+pv+"\n"+fw.TrimStack(st)))
 		return
